@@ -1,6 +1,6 @@
 #!/bin/bash
 # run every claimed check (quick tier) on the current tree; prints one line per check
-cd /verif
+cd "$(dirname "$0")/.."
 for id in $(jq -r '.checks[].property_id' MANIFEST.json); do
   ./check $id ${1:+--tier $1} 2>&1 | grep -E "^(VIOLATION|OK)" | cut -c1-160
 done
